@@ -204,6 +204,10 @@ func buildPools() map[byte][]leaf {
 	loxs := lf("attr", val{t: 'l', l: []int64{12, 7}}, "o.xs")
 	la12 := lf("list", val{t: 'l', l: []int64{3, 12}}, "[a, 12]", "[a,12]", "[  a  ,  12  ]")
 	comma := lf("lit", sv(","), "','")
+	g999, gbig := lf("lit", iv(999999999999999), "999999999999999"), lf("var", iv(9007199254740991), "big")
+	g1e15, gog := lf("lit", iv(1000000000000000), "1000000000000000"), lf("attr", iv(100000000000000), "o.g")
+	g252 := lf("lit", iv(4503599627370497), "4503599627370497")
+	ggs1 := lf("index", iv(-9007199254740991), "gs[1]", "gs[1]", "gs[  1  ]")
 
 	p := map[byte][]leaf{
 		'i': {i2, ia, i12, ib, ion, ixs1,
@@ -249,13 +253,36 @@ func buildPools() map[byte][]leaf {
 			listOf(ia, call("max", i2, i12)), // [3, 12] as [a, max(2, 12)]
 			lxs, l37, loxs, la12,
 		},
+		// large integers (static type 'g'): magnitudes 10^14 .. 2^53-1 on both sides of 10^15, where a
+		// formatter that is not the print tag's may switch to another spelling. Slots 6-11 are the comma
+		// twins of slots 0-5 (the values come back out of a call, a list or a hash literal).
+		'g': {g999, gbig, g1e15, gog, g252, ggs1,
+			elemAt(1, ia, g999),               // [a, 999999999999999][1]
+			call("pick", ilit(1), ia, gbig),   // pick(1, a, big)
+			hashAt("k", "k", g1e15, "j", i2),  // {'k': 1000000000000000, 'j': 2}['k']
+			call("pick", ilit(0), gog, i2),    // pick(0, o.g, 2)
+			call("max", i2, g252),             // max(2, 4503599627370497)
+			call("min", ggs1, ia),             // min(gs[1], a) = -9007199254740991
+		},
+		// medium integers (static type 'm', 10^7 .. 94906265): only ever factors of a product M * M or
+		// the base of M ^ 2, so that a large integer arises as an intermediate result; every product of
+		// two of them lies in 10^14 .. 2^53 (10000000^2 = 10^14, 94906265^2 = 9007199136250225 < 2^53), and
+		// the pool straddles 10^15: 31622776 * 31622777 = 999999993568952 < 10^15 < 31622777^2
+		'm': {
+			lf("lit", iv(67108865), "67108865"), // 2^26 + 1
+			lf("var", iv(94906265), "c"),
+			lf("lit", iv(31622777), "31622777"),
+			lf("attr", iv(31622776), "o.c"),
+			lf("lit", iv(10000000), "10000000"),
+			lf("index", iv(33554432), "ms[1]", "ms[1]", "ms[  1  ]"),
+		},
 		'r': { // regular expressions, only ever the right operand of `matches`
 			lf("lit", sv("/^a/"), "'/^a/'"),
 			lf("lit", sv("/b$/"), "'/b$/'"),
 		},
 	}
 	// the comma leaves are twins: same value as the plain leaf half (a third) of the pool away
-	for _, t := range []byte{'i', 'b', 's'} {
+	for _, t := range []byte{'i', 'b', 's', 'g'} {
 		for i := 0; i < 6; i++ {
 			if len(p[t]) != 12 || !p[t][i].v.eq(p[t][i+6].v) || p[t][i].comma || !p[t][i+6].comma {
 				panic(fmt.Sprintf("pool %c: slot %d and its comma twin disagree", t, i))
@@ -276,11 +303,15 @@ const nRot = 12 // lcm of the pool sizes
 func context() map[string]interface{} {
 	return map[string]interface{}{
 		"a": 3, "b": 7, "t": true, "f": false, "s": "ab", "n": "9",
+		"big": 9007199254740991, "c": 94906265,
+		"gs": []interface{}{1, -9007199254740991},
+		"ms": []interface{}{1, 33554432},
 		"ns": []interface{}{"7", "5"},
 		"xs": []interface{}{2, 30, 5},
 		"bs": []interface{}{true, false},
 		"ss": []interface{}{"ba", "abab"},
 		"o": map[string]interface{}{"n": 5, "s": "ba", "f": false, "t": true, "m": "-1",
+			"g": 100000000000000, "c": 31622776,
 			"xs": []interface{}{12, 7}},
 		"seq": []interface{}{100, 101, 102, 103, 104, 105, 106, 107, 108, 109},
 	}
@@ -329,35 +360,49 @@ type bspec struct {
 	res    byte
 	core   bool
 	ns     byte // 0: no numeric string involved; 1: numeric-string typing kept in the largest classes; 2: the others
+	big    byte // 0: no large integer involved; 1: large-integer typing kept in rep mode; 2: the others
 }
 
 var bspecs = []bspec{
-	{"or", 'b', 'b', 'b', true, 0}, {"and", 'b', 'b', 'b', true, 0},
-	{"==", 'i', 'i', 'b', true, 0}, {"==", 's', 's', 'b', false, 0}, {"==", 'b', 'b', 'b', true, 0},
-	{"!=", 'i', 'i', 'b', true, 0}, {"!=", 's', 's', 'b', false, 0}, {"!=", 'b', 'b', 'b', false, 0},
-	{"<", 'i', 'i', 'b', true, 0}, {">", 'i', 'i', 'b', false, 0}, {"<=", 'i', 'i', 'b', false, 0}, {">=", 'i', 'i', 'b', true, 0},
-	{"in", 'i', 'l', 'b', true, 0}, {"not in", 'i', 'l', 'b', false, 0},
-	{"matches", 's', 'r', 'b', false, 0}, {"starts with", 's', 's', 'b', true, 0}, {"ends with", 's', 's', 'b', false, 0},
-	{"+", 'i', 'i', 'i', true, 0}, {"-", 'i', 'i', 'i', true, 0},
-	{"~", 'i', 'i', 's', true, 0}, {"~", 'i', 's', 's', false, 0}, {"~", 's', 'i', 's', true, 0}, {"~", 's', 's', 's', true, 0},
-	{"*", 'i', 'i', 'i', true, 0}, {"/", 'i', 'i', 'i', true, 0}, {"%", 'i', 'i', 'i', true, 0},
-	{"^", 'i', 'i', 'i', true, 0},
+	{"or", 'b', 'b', 'b', true, 0, 0}, {"and", 'b', 'b', 'b', true, 0, 0},
+	{"==", 'i', 'i', 'b', true, 0, 0}, {"==", 's', 's', 'b', false, 0, 0}, {"==", 'b', 'b', 'b', true, 0, 0},
+	{"!=", 'i', 'i', 'b', true, 0, 0}, {"!=", 's', 's', 'b', false, 0, 0}, {"!=", 'b', 'b', 'b', false, 0, 0},
+	{"<", 'i', 'i', 'b', true, 0, 0}, {">", 'i', 'i', 'b', false, 0, 0}, {"<=", 'i', 'i', 'b', false, 0, 0}, {">=", 'i', 'i', 'b', true, 0, 0},
+	{"in", 'i', 'l', 'b', true, 0, 0}, {"not in", 'i', 'l', 'b', false, 0, 0},
+	{"matches", 's', 'r', 'b', false, 0, 0}, {"starts with", 's', 's', 'b', true, 0, 0}, {"ends with", 's', 's', 'b', false, 0, 0},
+	{"+", 'i', 'i', 'i', true, 0, 0}, {"-", 'i', 'i', 'i', true, 0, 0},
+	{"~", 'i', 'i', 's', true, 0, 0}, {"~", 'i', 's', 's', false, 0, 0}, {"~", 's', 'i', 's', true, 0, 0}, {"~", 's', 's', 's', true, 0, 0},
+	{"*", 'i', 'i', 'i', true, 0, 0}, {"/", 'i', 'i', 'i', true, 0, 0}, {"%", 'i', 'i', 'i', true, 0, 0},
+	{"^", 'i', 'i', 'i', true, 0, 0},
 	// numeric strings (static type 'n'): ordered by numeric value, equal to the number they spell
-	{"<", 'n', 'n', 'b', false, 1}, {">", 'n', 'n', 'b', false, 2}, {"<=", 'n', 'n', 'b', false, 2}, {">=", 'n', 'n', 'b', false, 1},
-	{"==", 'n', 'i', 'b', false, 1}, {"==", 'i', 'n', 'b', false, 2}, {"!=", 'n', 'i', 'b', false, 2}, {"!=", 'i', 'n', 'b', false, 1},
-	{"<", 'n', 'i', 'b', false, 2}, {">=", 'i', 'n', 'b', false, 2},
-	{"~", 'i', 'i', 'n', false, 1},
+	{"<", 'n', 'n', 'b', false, 1, 0}, {">", 'n', 'n', 'b', false, 2, 0}, {"<=", 'n', 'n', 'b', false, 2, 0}, {">=", 'n', 'n', 'b', false, 1, 0},
+	{"==", 'n', 'i', 'b', false, 1, 0}, {"==", 'i', 'n', 'b', false, 2, 0}, {"!=", 'n', 'i', 'b', false, 2, 0}, {"!=", 'i', 'n', 'b', false, 1, 0},
+	{"<", 'n', 'i', 'b', false, 2, 0}, {">=", 'i', 'n', 'b', false, 2, 0},
+	{"~", 'i', 'i', 'n', false, 1, 0},
+	// large integers (static type 'g', 10^14 <= |v| < 2^53) and the medium factors 'm' they arise from:
+	// exact arithmetic, numeric comparison, and concatenation of the exact decimal spelling
+	{"~", 'g', 's', 's', false, 0, 1}, {"~", 's', 'g', 's', false, 0, 1}, {"~", 'g', 'g', 's', false, 0, 2},
+	{"+", 'g', 'i', 'g', false, 0, 1}, {"-", 'g', 'i', 'g', false, 0, 2}, {"+", 'i', 'g', 'g', false, 0, 2},
+	{"-", 'g', 'g', 'i', false, 0, 1},
+	{"*", 'm', 'm', 'g', false, 0, 1}, {"*", 'i', 'g', 'g', false, 0, 2},
+	{"/", 'g', 'i', 'g', false, 0, 2}, {"%", 'g', 'i', 'i', false, 0, 2},
+	{"^", 'm', 'i', 'g', false, 0, 2},
+	{"==", 'g', 'g', 'b', false, 0, 1}, {"!=", 'g', 'g', 'b', false, 0, 2},
+	{"<", 'g', 'g', 'b', false, 0, 1}, {">=", 'g', 'g', 'b', false, 0, 2},
 }
 
 type uspec struct {
 	kind    byte
 	op      string
 	in, out byte
+	big     byte // as in bspec
 }
 
 var uspecs = []uspec{
-	{'u', "-", 'i', 'i'}, {'u', "not", 'b', 'b'},
-	{'f', "abs", 'i', 'i'}, {'f', "length", 's', 'i'}, {'f', "length", 'l', 'i'}, {'f', "upper", 's', 's'},
+	{'u', "-", 'i', 'i', 0}, {'u', "not", 'b', 'b', 0},
+	{'f', "abs", 'i', 'i', 0}, {'f', "length", 's', 'i', 0}, {'f', "length", 'l', 'i', 0}, {'f', "upper", 's', 's', 0},
+	// large integers: negation and |abs stay exact, |trim yields the decimal spelling
+	{'u', "-", 'g', 'g', 1}, {'f', "abs", 'g', 'g', 2}, {'f', "trim", 'g', 's', 1},
 }
 
 // gen returns every tree skeleton of result type typ with exactly k binary/conditional operators
@@ -372,7 +417,14 @@ type genKey struct {
 // genMode restricts the binary typings: core = one or two representatives per (level, typing)
 // (unused by the present tiers); nsRep = of the numeric-string typings only the representatives
 // `<` `>=` (n,n), `==` (n,i), `!=` (i,n) and `~` (i,i) -> n.
-type genMode struct{ core, nsRep bool }
+// big: 0 = every large-integer typing, 1 = only the representatives `~` (g,s) (s,g), `+` (g,i), `-` (g,g),
+// `*` (m,m), `==` `<` (g,g), unary minus and |trim, 2 = none (no tree contains a large integer).
+type genMode struct {
+	core, nsRep bool
+	big         byte
+}
+
+func (m genMode) skipsBig(b byte) bool { return b > 0 && (m.big == 2 || (m.big == 1 && b > 1)) }
 
 var genMemo = map[genKey][]*node{}
 
@@ -391,6 +443,9 @@ func gen(k, u int, typ byte, core genMode) []*node {
 // genInto streams the same trees to emit (used for the top level so that the largest class is
 // never materialised).
 func genInto(k, u int, typ byte, core genMode, emit func(*node)) {
+	if (typ == 'g' || typ == 'm') && core.big == 2 {
+		return
+	}
 	if k == 0 && u == 0 {
 		emit(mk('a', "", typ))
 		return
@@ -400,7 +455,7 @@ func genInto(k, u int, typ byte, core genMode, emit func(*node)) {
 	}
 	if u > 0 {
 		for _, s := range uspecs {
-			if s.out != typ {
+			if s.out != typ || core.skipsBig(s.big) {
 				continue
 			}
 			for _, c := range gen(k, u-1, s.in, core) {
@@ -416,7 +471,7 @@ func genInto(k, u int, typ byte, core genMode, emit func(*node)) {
 	}
 	if typ != 'l' {
 		for _, s := range bspecs {
-			if s.res != typ || (core.core && !s.core) || (core.nsRep && s.ns > 1) {
+			if s.res != typ || (core.core && !s.core) || (core.nsRep && s.ns > 1) || core.skipsBig(s.big) {
 				continue
 			}
 			for kl := 0; kl < k; kl++ {
@@ -491,10 +546,25 @@ type evaluator struct {
 	leaves []leaf
 	all    bool  // evaluate every operand (well-definedness check) instead of short-circuiting
 	trace  []int // leaf ordinals evaluated
+	maxAbs int64 // the largest magnitude of an integer leaf or intermediate result evaluated
 }
 
-// eval evaluates n whose first leaf has ordinal base.
+// eval evaluates n whose first leaf has ordinal base, and notes the largest integer magnitude met.
 func (e *evaluator) eval(n *node, base int) (val, error) {
+	v, err := e.eval1(n, base)
+	if err == nil && v.t == 'i' {
+		a := v.i
+		if a < 0 {
+			a = -a
+		}
+		if a > e.maxAbs {
+			e.maxAbs = a
+		}
+	}
+	return v, err
+}
+
+func (e *evaluator) eval1(n *node, base int) (val, error) {
 	switch n.kind {
 	case 'a':
 		e.trace = append(e.trace, base)
@@ -544,6 +614,12 @@ func (e *evaluator) eval(n *node, base int) (val, error) {
 				return val{}, evalErr("type: upper")
 			}
 			return sv(strings.ToUpper(x.s)), nil
+		case "trim":
+			// of an integer: its decimal spelling (generated for large integers only)
+			if x.t != 'i' {
+				return val{}, evalErr("type: trim")
+			}
+			return sv(x.String()), nil
 		}
 		return val{}, evalErr("filter " + n.op)
 	case 'c':
@@ -741,6 +817,18 @@ func (in *inst) value() (val, []int, error) {
 	v, err := e.eval(in.root, 0)
 	sort.Ints(e.trace)
 	return v, e.trace, err
+}
+
+// large: the magnitude from which an integer counts as large (the band 10^14 .. 2^53 of the statement's
+// exact range in which spellings of differing formatters part)
+const large = int64(100000000000000)
+
+// maxMagnitude: the largest integer magnitude among the leaves and intermediate results (all of
+// them, also those a short circuit skips).
+func (in *inst) maxMagnitude() int64 {
+	e := &evaluator{leaves: in.leaves, all: true}
+	e.eval(in.root, 0)
+	return e.maxAbs
 }
 
 // wellDefined: every subexpression (also those a short circuit skips) has a value the statement
@@ -1080,6 +1168,8 @@ func (e *shadow) eval(n *node, base int) sval {
 				return sval{t: 'i', f: float64(utf8.RuneCountInString(x.s))}
 			}
 			return sval{t: 'i', f: float64(len(x.l))}
+		case "trim":
+			return sval{t: 's', s: x.String()}
 		}
 		return sval{t: 's', s: strings.ToUpper(x.s)}
 	case 'c':
